@@ -1,6 +1,7 @@
 package rules
 
 import (
+	"sort"
 	"fmt"
 	"go/token"
 	"strings"
@@ -38,6 +39,7 @@ func runC17(c *Ctx) {
 		"C17.1 every catalog registration or deregistration issued while processing a peer's stream carries that peer's name: deregister requests take PeerName from the handler's peer parameter, register requests are built from a snapshot whose nodes, services and checks are all stamped with it",
 		"C17.2 the exporting side adds a service to the set offered to a peer only below a match of one of the entry's consumers with that peer",
 		"C17.3 services that are no longer exported are pruned: every previously imported service name missing from the new list is handed to the update handler with a nil export",
+		"C17.5 in every state-store function that is told which peer it works for, writes to the tables that exist only for the local cluster (coordinates, sessions, session links, KV, prepared queries) lie below the peer-name-empty edge: handling imported data never touches them",
 		"C17.4 a stored instance is kept only if the received snapshot holds it on the same node: the membership tests that guard a service deregistration are keyed by the node (or nested under a node lookup)",
 	}
 	r.NotDecided = []string{"exact reconciliation for all prior-state/snapshot pairs", "that data of other peers is untouched (follows from C17.1 only for the requests issued here)"}
@@ -179,6 +181,7 @@ func runC17(c *Ctx) {
 		}
 	}
 	r.Floor("C17.4", 2)
+	checkLocalOnlyTablesUnderLocalPeer(c)
 
 	// ---- C17.3
 	if hu := p.Func(peerstreamPkg, "(*Server).handleUpsertExportedServiceList"); hu != nil {
@@ -406,4 +409,92 @@ func checkExportConsumerGuard(c *Ctx) {
 	} else {
 		r.Hold("C17.2", core.FuncName(f), p.FuncPos(f), fmt.Sprintf("%d insertions into the exported sets, all below a consumer match", n))
 	}
+}
+
+// C17.5
+var localOnlyTables = map[string]bool{"coordinates": true, "sessions": true, "session_checks": true, "kvs": true, "tombstones": true, "prepared-queries": true}
+
+func checkLocalOnlyTablesUnderLocalPeer(c *Ctx) {
+	p, r := c.P, c.R
+	n := 0
+	perFn := map[string]int{}
+	for _, f := range p.SrcFuncs(statePkg) {
+		if isRestoreMethod(f) {
+			continue
+		}
+		// does the function know a peer?
+		hasPeer := false
+		for _, prm := range f.Params {
+			if strings.Contains(strings.ToLower(prm.Name()), "peer") && core.ShortType(prm.Type()) == "string" {
+				hasPeer = true
+			}
+		}
+		empty, _ := emptyStringEdges(f, isPeerValue)
+		if len(empty) > 0 {
+			hasPeer = true
+		}
+		if !hasPeer {
+			continue
+		}
+		var emptyEdges []core.Edge
+		for e := range empty {
+			emptyEdges = append(emptyEdges, e)
+		}
+		for _, b := range f.Blocks {
+			for _, in := range b.Instrs {
+				op := core.AsMemdbOp(in)
+				if op == nil {
+					// a helper without a peer parameter that writes a local-only table
+					ci, ok := in.(ssa.CallInstruction)
+					if !ok {
+						continue
+					}
+					g := ci.Common().StaticCallee()
+					if g == nil || g.Blocks == nil || !strings.HasSuffix(core.FuncPkgPath(g), "/"+statePkg) {
+						continue
+					}
+					peerAware := false
+					for _, prm := range g.Params {
+						if strings.Contains(strings.ToLower(prm.Name()), "peer") {
+							peerAware = true
+						}
+					}
+					if ge, _ := emptyStringEdges(g, isPeerValue); len(ge) > 0 {
+						peerAware = true
+					}
+					if peerAware {
+						continue
+					}
+					var ts []string
+					for t := range localOnlyTables {
+						if insertsInto(p, g, t, 0) || deletesFrom(p, g, t, 0) {
+							ts = append(ts, t)
+						}
+					}
+					sort.Strings(ts)
+					if len(ts) > 0 {
+						op = &core.MemdbOp{Op: "call " + g.Name(), Table: strings.Join(ts, "+"), TableKnown: true}
+					}
+					if op == nil {
+						continue
+					}
+				} else if !op.IsWrite() || !op.TableKnown || !localOnlyTables[op.Table] {
+					continue
+				}
+				n++
+				base := core.FuncName(f) + "/" + op.Op + ":" + op.Table
+				perFn[base]++
+				construct := base
+				if perFn[base] > 1 {
+					construct = fmt.Sprintf("%s#%d", base, perFn[base])
+				}
+				if len(emptyEdges) > 0 && core.CutMakesUnreachable(f, nil, emptyEdges, in) {
+					r.Hold("C17.5", construct, p.Pos(in.Pos()), "only below the peer-name-empty edge")
+				} else {
+					r.Violate("C17.5", construct, p.Pos(in.Pos()), fmt.Sprintf("table %s holds data of the local cluster only, but this %s is reachable while the function works for a peer: removing imported data (an imported node that is no longer exported, a deleted peering) modifies the local row with the same key", op.Table, op.Op))
+				}
+			}
+		}
+	}
+	r.Floor("C17.5", 3)
 }
